@@ -5,7 +5,7 @@
 //! but everything it can validly sign and everything anyone can put on the victim's five network
 //! interfaces is injected from a finite hostile menu at several protocol phases.
 
-use std::collections::BTreeSet;
+use std::collections::{BTreeMap, BTreeSet};
 use std::sync::Mutex;
 use std::time::Duration;
 
@@ -161,6 +161,33 @@ fn menu(tier: Tier) -> Vec<Attack> {
                 for v in variants {
                     out.push((a2a(VICTIM), wincode::serialize(&MMsg::Cert(v)).unwrap()));
                 }
+            }
+        }
+        out
+    }));
+    // every certificate kind seen on the wire, with the signer bitmask of each aggregate replaced by
+    // {2048 bits all set, one word with every real validator plus out-of-range indices, empty}
+    add("certificates-with-hostile-bitmasks", "a2a-cert", Box::new(|s: &Snap| {
+        let mut out = Vec::new();
+        let mut latest: BTreeMap<u8, MCert> = BTreeMap::new();
+        for c in s.certs.iter() {
+            if let MMsg::Cert(mc) = to_mirror::<_, MMsg>(&ConsensusMessage::Cert(c.clone())) {
+                let k = match &mc { MCert::Notar(_) => 0u8, MCert::NotarFallback(_) => 1, MCert::Skip(_) => 2, MCert::FastFinal(_) => 3, MCert::Final(_) => 4 };
+                latest.insert(k, mc);
+            }
+        }
+        let masks: Vec<(u64, Vec<u64>)> = vec![(2048, vec![u64::MAX; 32]), (64, vec![u64::MAX]), (6, vec![0b11_1111]), (65, vec![0b1_1111, 1]), (0, vec![])];
+        for mc in latest.values() {
+            for (bits, words) in &masks {
+                let patch = |a: &MAgg| { let mut a = a.clone(); a.num_bits = *bits; a.words = words.clone(); a };
+                let v = match mc {
+                    MCert::Notar(x) => { let mut y = x.clone(); y.agg = patch(&x.agg); MCert::Notar(y) }
+                    MCert::FastFinal(x) => { let mut y = x.clone(); y.agg = patch(&x.agg); MCert::FastFinal(y) }
+                    MCert::Final(x) => { let mut y = x.clone(); y.agg = patch(&x.agg); MCert::Final(y) }
+                    MCert::NotarFallback(x) => { let mut y = x.clone(); y.a1 = Some(patch(x.a1.as_ref().or(x.a2.as_ref()).unwrap())); y.a2 = x.a2.as_ref().map(&patch); MCert::NotarFallback(y) }
+                    MCert::Skip(x) => { let mut y = x.clone(); y.a1 = Some(patch(x.a1.as_ref().or(x.a2.as_ref()).unwrap())); y.a2 = x.a2.as_ref().map(&patch); MCert::Skip(y) }
+                };
+                out.push((a2a(VICTIM), wincode::serialize(&MMsg::Cert(v)).unwrap()));
             }
         }
         out
@@ -474,7 +501,11 @@ fn judge(report: &Report, name: &str, class: &str, phase: u64, o: &Outcome, base
 pub fn run(tier: Tier) -> i32 {
     let report = Report::new("C10", tier, "fault_enumeration");
     let total_ms = 12_000u64;
-    let attacks = menu(tier);
+    let mut attacks = menu(tier);
+    if let Ok(f) = std::env::var("C10_ONLY") {
+        // debugging aid: restrict the menu to attacks whose name contains the given text
+        attacks.retain(|a| a.name.contains(&f));
+    }
     // undisturbed baseline (attacker silent)
     let base = run_one(&[], 1_000_000, total_ms, false);
     let baseline_fin = match &base {
